@@ -119,7 +119,7 @@ def rule_lists_are_disjunctions(ctx):
             if unk and lp:
                 r.violation(anchor, "cannot-analyse:" + ",".join(sorted({str(l.note) for l in unk})), "cannot analyse the literals reaching this SAT call (%s): unmodelled construct" % sorted({str(l.note) for l in unk}), s.loc())
     r.floor(n_sinks, 10, "SAT sinks reachable from static acceptance methods")
-    r.floor(n_list, 4, "SAT sinks fed from the query list")
+    r.floor(n_list, 2, "SAT sinks fed from the query list")
 
 
 def rule_delegation_pairs(ctx):
@@ -213,6 +213,151 @@ def rule_no_extension_only_stable(ctx):
 # stable solver: UNSAT in a component decides the whole query
 
 
+def _none_arm_regions(b, res_local):
+    """[(switch site, blocks run when the Option held in `res_local` (or `?` applied to it) is None)]"""
+    out = []
+    for sw in switch_sites(b):
+        subj = switch_subject(b, sw)
+        if not subj or not subj[1]:
+            continue
+        root = subj[0]["l"]
+        via_try = False
+        direct = root == res_local
+        if not direct:
+            for o in origins(b, {"l": root, "p": []}, transparent=()):
+                if o.kind == "call" and callee_decl(o.data) == "core::ops::try_trait::Try::branch":
+                    q = op_place(o.site.node["args"][0])
+                    seen, _, _ = data_deps(b, o.site.node["args"][0], through_calls=False)
+                    if (q is not None and q["l"] == res_local) or res_local in seen:
+                        via_try = True
+            if not via_try:
+                seen, _, _ = data_deps(b, {"l": root, "p": []}, through_calls=False)
+                direct = res_local in seen and b.local_ty(root).startswith("core::option::Option<")
+        if not (direct or via_try):
+            continue
+        want = "1" if via_try else "0"  # Option: None = 0; ControlFlow from `?`: Break = 1
+        tgt = [bb for v, bb in sw.node["targets"] if v == want] or ([sw.node["otherwise"]] if sw.node.get("otherwise") is not None and want not in [v for v, _ in sw.node["targets"]] else [])
+        for t in tgt:
+            out.append((sw, {t} | b.blocks_reachable_from(t, avoid={sw.bb})))
+    return out
+
+
+def _stable_unsat_propagation(prog, r, scope, kind):
+    """the stable solver written with helpers: UNSAT (`unwrap_model() == None`) of any component must travel, as `None`, through every
+    function between the SAT call and the query method, leaving the component loop at once; decided per function, inductively"""
+    mod = STABLE.rsplit("::", 1)[0]
+    fns = [b for b in prog.lib_bodies() if b.kind != "closure" and b.path.startswith(mod + "::") or (b.kind != "closure" and ("<" + mod + "::") in b.path)]
+    fns = [b for b in fns if "tests" not in b.path]
+    carrying = {}  # fn id -> True when its None result includes "some component is UNSAT"
+    n = 0
+    changed = True
+    rounds = 0
+    verdicts = {}
+    while changed and rounds < 6:
+        changed = False
+        rounds += 1
+        for b in fns:
+            opt_ret = b.ret_ty.startswith("core::option::Option<")
+            tup_ret = bool(re.match(r"^\(bool, core::option::Option<", b.ret_ty))
+            if not (opt_ret or tup_ret):
+                continue
+            srcs = []
+            for y in [b]:
+                for s in y.calls():
+                    c = callee_of(s)
+                    t = prog.body_for_callee(c, y) if c else None
+                    if callee_decl(c) == "sat::sat_solver::SolvingResult::unwrap_model" or (t is not None and carrying.get(t.id)):
+                        srcs.append(s)
+            if not srcs:
+                continue
+            ok_all = True
+            for s in srcs:
+                res = s.node["dst"]["l"]
+                # returned as it is (tail call): None travels by itself
+                rets, _, _ = data_deps(b, {"l": 0, "p": []}, through_calls=False)
+                regions = _none_arm_regions(b, res)
+                if not regions:
+                    if opt_ret and res in rets:
+                        verdicts[(b.id, s.bb)] = (True, "returned as it is", s)
+                        continue
+                    verdicts[(b.id, s.bb)] = (None, "the None case of the result is not matched", s)
+                    ok_all = False
+                    continue
+                for sw, region in regions:
+                    loops = b.in_loop(sw.bb)
+                    back = any(h in region for h in loops)
+                    shapes = set()
+                    for x in region:
+                        for st in b.blocks[x]["stmts"]:
+                            if st["k"] == "assign" and st["dst"]["l"] == 0 and not st["dst"]["p"]:
+                                from ..core import Site as _S
+
+                                if st["rv"]["k"] == "aggregate" and st["rv"]["agg"].get("variant") == "None":
+                                    shapes.add("None")
+                                elif st["rv"]["k"] == "aggregate" and st["rv"]["agg"].get("kind") == "tuple":
+                                    c0 = shp.shapes_of(prog, b, st["rv"]["ops"][0], _S(b, x, 0))
+                                    c1 = shp.shapes_of(prog, b, st["rv"]["ops"][1], _S(b, x, 0))
+                                    for a0 in c0:
+                                        for a1 in c1:
+                                            shapes.add(("t", (a0, a1)))
+                                elif st["rv"]["k"] == "use":
+                                    for sh_ in shp.shapes_of(prog, b, st["rv"]["ops"][0], _S(b, x, 0)):
+                                        shapes.add(sh_)
+                                else:
+                                    shapes.add("?")
+                        t_ = b.blocks[x]["term"]
+                        if t_["k"] == "call" and t_.get("dst") and t_["dst"]["l"] == 0 and not t_["dst"]["p"]:
+                            d = callee_decl(t_.get("callee")) if t_.get("callee") else ""
+                            shapes.add("None" if d.endswith("FromResidual::from_residual") else "?")
+                    if opt_ret:
+                        good = not back and shapes <= {"None"} and bool(shapes)
+                    else:
+                        good = not back and bool(shapes) and all(isinstance(x, tuple) and x[0] == "t" and isinstance(x[1][0], tuple) and x[1][0][0] == "p" and x[1][1] == "None" for x in shapes)
+                    verdicts[(b.id, s.bb)] = (good, "continues the loop" if back else "returns %s" % sorted(shapes, key=str), s)
+                    ok_all = ok_all and good
+            if ok_all and not carrying.get(b.id):
+                carrying[b.id] = True
+                changed = True
+    for (bid, bb), (good, why, s) in sorted(verdicts.items(), key=lambda kv: kv[0]):
+        if scope is not None and bid not in scope:
+            continue
+        n += 1
+        anchor = "%s|unsat@%d" % (bid, n)
+        if good is None:
+            r.ok(anchor, "NOT decided: %s" % why, s.loc())
+        else:
+            r.check(good, anchor, "unsat-not-propagated", "UNSAT leaves the component loop and travels up as None (%s)" % why, "an unsatisfiable component does not make this function give up at once with `None` / (status_on_unsat, None): it %s - a framework without stable extension is not recognised" % why, s.loc())
+    # the entry points hand the right status_on_unsat to the function that turns None into (status_on_unsat, None)
+    for b in fns:
+        if not re.match(r"^\(bool, core::option::Option<", b.ret_ty) or not carrying.get(b.id):
+            continue
+        pk = None
+        for st in b.sites():
+            nd = st.node
+            if st.si is not None and nd["k"] == "assign" and nd["dst"]["l"] == 0 and nd["rv"]["k"] == "aggregate" and nd["rv"]["agg"].get("kind") == "tuple":
+                for sh_ in shp.shapes_of(prog, b, nd["rv"]["ops"][0], st):
+                    if isinstance(sh_, tuple) and sh_[0] == "p" and "None" in shp.shapes_of(prog, b, nd["rv"]["ops"][1], st):
+                        pk = sh_[1]
+        if pk is None:
+            continue
+        for tr, want_unsat in ((CRED, False), (SKEP, True)):
+            if kind is not None and KIND_TRAIT[kind] != tr:
+                continue
+            for imp, eb in prog.impl_methods(tr, "are_%s_accepted_with_certificate" % ("credulously" if tr == CRED else "skeptically")):
+                if imp.get("self_adt") != STABLE:
+                    continue
+                for cs in eb.calls():
+                    if prog.body_for_callee(callee_of(cs), eb) is b:
+                        k = op_const(cs.node["args"][pk - 1])
+                        r.check(k is not None and k.get("bool") is want_unsat, "%s|on-unsat" % eb.id, "on_unsat=%s" % (k and k.get("bool")), "%s passes on_unsat=%s" % ("credulous" if tr == CRED else "skeptical", want_unsat), "the %s entry point passes status_on_unsat=%s" % ("credulous" if tr == CRED else "skeptical", k and k.get("bool")), cs.loc())
+    # the component loop ranges over the caller's whole framework
+    its = [(b, s) for b in fns for s in b.calls() if callee_matches(callee_of(s), r"ConnectedComponentsComputer::iter_connected_components$")]
+    if its:
+        ok = all(any(o.kind == "param" and o.data == 1 and [str(f) for f in o.fields] == ["af"] for o in origins(b, s.node["args"][0])) for b, s in its)
+        r.check(ok, STABLE + "|components", "component-source", "iterates all connected components of self.af", "the loop does not range over all components of the caller's framework", its[0][1].loc())
+    return n
+
+
 def rule_stable_unsat(ctx, kind=None):
     prog = ctx.prog
     scope = query_scope(prog, kind)
@@ -292,6 +437,8 @@ def rule_stable_unsat(ctx, kind=None):
             it = [s for s in b.calls() if callee_matches(callee_of(s), r"ConnectedComponentsComputer::iter_connected_components$")]
             ok = bool(it) and all(any(o.kind == "param" and o.data == 1 and [str(f) for f in o.fields] == ["af"] for o in origins(b, s.node["args"][0])) for s in it)
             r.check(ok, b.id + "|components", "component-source", "iterates all connected components of self.af", "the loop does not range over all components of the caller's framework", b.loc())
+    if n == 0:
+        n = _stable_unsat_propagation(prog, r, scope, kind)
     r.floor(n, 3 if kind is None else 1, "SAT calls in the stable solver")
 
 
@@ -851,7 +998,10 @@ def rule_every_listed_argument(ctx, kind=None):
                         if b.local_name(root) is not None and any(dd.bb in blocks for dd in b.defs.get(root, [])):
                             bad = b.local_name(root)
                 r.check(bad is None, "%s|selection@bb%d" % (b.id, s.bb), "selection-switched-off:%s" % bad, "the listed arguments of the component are selected in every iteration", "the selection of the listed arguments of the current component depends on the flag `%s` written in an earlier iteration of the component loop: listed arguments of later components are dropped from the query" % bad, s.loc())
-    r.floor(n_a + n_b, 1, "accumulating list loops and per-component selections")
+    if kind is None:
+        r.floor(n_a + n_b, 1, "accumulating list loops and per-component selections")
+    else:
+        r.note("%d accumulating list loops and per-component selections in the reach of the %s entry points" % (n_a + n_b, kind))
 
 
 def _is_component_iterator(prog, b, op):
@@ -1107,7 +1257,24 @@ def rule_status_certificate_pairing(ctx, kind=None):
         if _diverges_entirely(b):
             continue
         n += 1
-        ss = shp.return_shapes(prog, b)
+        # a helper told by a constant which variant it serves (a flag, a small enum) is judged once per constant its callers pass
+        penvs = []
+        for cs in prog.callers_of(b):
+            env = {}
+            for i, a in enumerate(cs.node["args"]):
+                kv = shp._const_arg(prog, cs.body, a, None)
+                if isinstance(kv, tuple) and kv[0] == "variant":
+                    env[i + 1] = kv
+            if env and env not in penvs:
+                penvs.append(env)
+        for penv in (penvs or [None]):
+            _pairing_check(prog, r, b, penv)
+    r.floor(n, 3 if kind is None else 1, "functions returning (status, Option<certificate>)")
+
+
+def _pairing_check(prog, r, b, penv):
+    if True:
+        ss = shp.return_shapes(prog, b, (), penv) if penv else shp.return_shapes(prog, b)
         by_cert = {"Some": set(), "None": set()}
         for s in ss:
             if isinstance(s, tuple) and s[0] == "t" and len(s[1]) == 2:
@@ -1116,6 +1283,11 @@ def rule_status_certificate_pairing(ctx, kind=None):
                 if c is not None and st != "?":
                     by_cert[c].add(st)
         bad = None
+        if not by_cert["Some"] or not by_cert["None"]:
+            # a variant that never (or always) hands out a certificate: there is nothing to pair
+            tag0 = "" if not penv else "|" + ",".join("%s=%s" % (k, v[1]) for k, v in sorted(penv.items()))
+            r.ok(b.id + tag0, "status only / certificate only: nothing to pair", b.loc())
+            return
         for c, sts in by_cert.items():
             if len(sts) > 1:
                 bad = "its `%s` results carry the statuses %s" % (c, sorted(sts, key=str))
@@ -1123,8 +1295,8 @@ def rule_status_certificate_pairing(ctx, kind=None):
             a, z = next(iter(by_cert["Some"])), next(iter(by_cert["None"]))
             if shp.neg(a) != z and not (a in (True, False) and z in (True, False) and a != z):
                 bad = "`Some` comes with %s and `None` with %s, which are not opposite" % (a, z)
-        r.check(bad is None, b.id, "pairing:%s" % {k: sorted(v, key=str) for k, v in by_cert.items()}, "Some <-> %s, None <-> %s" % (sorted(by_cert["Some"], key=str), sorted(by_cert["None"], key=str)), "%s does not pair status and certificate one way: %s" % (b.path.rsplit("::", 1)[-1], bad), b.loc())
-    r.floor(n, 3 if kind is None else 1, "functions returning (status, Option<certificate>)")
+        tag = "" if not penv else "|" + ",".join("%s=%s" % (k, v[1]) for k, v in sorted(penv.items()))
+        r.check(bad is None, b.id + tag, "pairing:%s" % {k: sorted(v, key=str) for k, v in by_cert.items()}, "Some <-> %s, None <-> %s" % (sorted(by_cert["Some"], key=str), sorted(by_cert["None"], key=str)), "%s does not pair status and certificate one way: %s" % (b.path.rsplit("::", 1)[-1], bad), b.loc())
 
 
 def rule_in_all_flags_polarity(ctx):
